@@ -10,9 +10,11 @@ Python only orchestrates, counts and maps TLC's verdicts to VIOLATION lines."""
 import json, os, re, time
 from . import lib
 
-BUGS = ["nocritical", "flagfirst", "nolock", "noreduce", "noiolock", "sharedacc"]
+BUGS = ["nocritical", "flagfirst", "nolock", "noreduce", "noiolock", "sharedacc", "staleacc"]
 ACTIONS = ["ReadFlag", "EnterCritical", "RecheckFlag", "Fill1", "Fill2", "SetFlag", "LeaveCritical", "UseTable", "Take", "Seek", "ReadIO",
            "LockLookup", "Find", "Compute", "LockInsert", "Count", "Insert", "Accumulate", "Reduce"]
+# several calls on the same objects with a changing number of active threads (StartCall): quick / thorough configurations
+CALLS = {True: ["MC_Threads_calls", "MC_Threads_calls3"], False: ["MC_Threads_calls_thorough", "MC_Threads_calls3"]}
 WORKLOADS = ["lazy", "rows", "proj", "ll", "lm", "scat", "io"]
 
 
@@ -48,9 +50,17 @@ def run(ctx):
     for a in ACTIONS:
         if r.coverage.get(a, (0, 0))[1] == 0:
             raise lib.ModelFailure("MC_Threads: action %s never taken (vacuous model check)" % a)
+    for cc in CALLS[q]:
+        rc_ = lib.tlc("MC_Threads", cfg=cc, workers=4 if q else 8, timeout=1500, heap="6g", coverage=True, deadlock=True)
+        ctx.mc_must_pass(rc_, "repeated calls with changing thread counts: result = items of this call only (%s)" % cc, "MC_Threads")
+        if rc_.coverage.get("StartCall", (0, 0))[1] == 0:
+            raise lib.ModelFailure("MC_Threads (%s): StartCall never taken (vacuous model check)" % cc)
     live = "MC_Threads_live" if q else "MC_Threads_live_thorough"
     rl = lib.tlc("MC_Threads", cfg=live, workers=4 if q else 8, timeout=1500, heap="6g", deadlock=True)
     ctx.mc_must_pass(rl, "termination under weak fairness (%s, FairSpec)" % live, "MC_Threads")
+    if not q:
+        rl2 = lib.tlc("MC_Threads", cfg="MC_Threads_live_calls_thorough", workers=8, timeout=1500, heap="6g", deadlock=True)
+        ctx.mc_must_pass(rl2, "termination under weak fairness, repeated calls (MC_Threads_live_calls_thorough, FairSpec)", "MC_Threads")
     for b in BUGS:
         rb = lib.tlc("MC_Threads", cfg="MC_Threads_bug_" + b, workers=2, timeout=600, heap="4g", deadlock=True)
         if not rb.violation:
@@ -86,7 +96,7 @@ def run(ctx):
         chunks += lib.split_trace(t, os.path.join(ctx.work, "chunks"), maxlines=12000 if q else 30000, boundary="Inst")
     res = lib.validate_parallel("Trace_Threads", [c[0] for c in chunks], jobs=4 if q else 8, timeout=2400, heap="3g")
     total = {"ev": 0, "out": 0, "runs": 0}
-    seen_wl, seen_T, nref, nruns = set(), set(), 0, 0
+    seen_wl, seen_T, nref, nruns, nhist, nphase = set(), set(), 0, 0, 0, 0
     races = {"lazy_lost_race_table%d" % i: 0 for i in range(1, 6)}
     races["cache_insert_lost_race"] = 0
     for (p, ok, r, at) in res:
@@ -103,9 +113,12 @@ def run(ctx):
                 nruns += 1
                 nref += 1 if rec["ref"] else 0
                 seen_wl.add(rec["wl"]); seen_T.add(rec["T"])
-                ctx.nontrivial([rec["wl"], rec["T"], rec["mode"]])
-                if nruns % 37 == 2:
-                    ctx.sample({k: rec[k] for k in ("wl", "inst", "T", "rep", "mode")})
+                seen_T.update(rec["hist"])
+                nhist += 1 if len(rec["hist"]) > 1 else 0
+                nphase += len(rec["hist"])
+                ctx.nontrivial([rec["wl"], rec["T"], rec["hist"] if len(rec["hist"]) == 1 else "history", rec["mode"]])
+                if nruns % 37 == 2 or (len(rec["hist"]) > 1 and nhist % 9 == 1):
+                    ctx.sample({k: rec[k] for k in ("wl", "inst", "T", "hist", "rep", "mode")}, cap=8)
         if at is not None or not ok:
             ctx.violation("trace not consumed (line %s)" % at, p)
             continue
@@ -141,12 +154,14 @@ def run(ctx):
                     runrec = recs[k]
                     break
             brief = {k: v for k, v in rec.items() if k != "v"}
-            ctx.violation("%s: recorded execution not explained by the thread model, workload %s, %s threads, line %d of the instance: %s" % (
-                cls, sl[0].get("wl") if sl else "?", runrec.get("T") if runrec else "?", ln - start, json.dumps(brief)[:300]), rp, rec=None)
+            ctx.violation("%s: recorded execution not explained by the thread model, workload %s, threads %s, line %d of the instance: %s" % (
+                cls, sl[0].get("wl") if sl else "?", ("%s at set_up, then %s" % (runrec.get("T"), runrec.get("hist"))) if runrec else "?", ln - start, json.dumps(brief)[:300]), rp, rec=None)
     ctx.traces = total["runs"]
     ctx.evaluations = total["ev"] + total["out"]
     ctx.extra["runs_recorded"] = nruns
     ctx.extra["reference_runs"] = nref
+    ctx.extra["thread_count_history_runs"] = nhist
+    ctx.extra["phases_recorded"] = nphase
     ctx.extra["hook_events_checked"] = total["ev"]
     ctx.extra["outputs_compared"] = total["out"]
     ctx.extra["thread_counts"] = sorted(seen_T)
@@ -156,6 +171,8 @@ def run(ctx):
         idle = [k for k, v in races.items() if v == 0]
         if idle:
             raise lib.ModelFailure("vacuous run: no first-use race was recorded for %s" % idle)
+        if nhist == 0:
+            raise lib.ModelFailure("vacuous run: no thread-count history was recorded")
         if missing or total["runs"] == 0 or total["out"] == 0 or not (seen_T & {16, 40}):
             raise lib.ModelFailure("vacuous run: workloads missing %s, runs %d, outputs %d, thread counts %s" % (missing, total["runs"], total["out"], sorted(seen_T)))
     ctx.exhaustive = False
